@@ -1,9 +1,13 @@
 (* Case evaluator for the C09 correspondence shards: one case = one history on one table,
    every step carrying what the real LTable / Lua code returned. *)
-From GL Require Import Common.Bytes Table.TImpl Table.TSpec.
+From GL Require Import Common.Bytes Table.TImpl Table.TSpec Table.TLib.
 
 Inductive sethow := HSet | HSetInt | HSetString | HSetH.
 Inductive gethow := GGet | GGetInt | GGetString | GGetH.
+
+(* what a traversal-with-mutation does between two Next calls: a store to an existing field, or
+   table.remove(t, pos) (which only assigns existing fields: t[i] = t[i+1], t[n] = nil) *)
+Inductive tupd := USet (k : key) (v : value) | URemove (pos : Z).
 
 Inductive step :=
 | SSet (h : sethow) (k : key) (v : value)
@@ -17,7 +21,8 @@ Inductive step :=
 | SWalk (o : list (key * value))                    (* Next from nil to the end: exact order *)
 | SIpairs (o : list value)
 | SGuard (k : lkey) (raised : bool)                  (* Lua-level store under nil / NaN *)
-| STrav (o : list (key * value * list (key * value))).
+| STrav (o : list (key * value * list tupd))
+| SStop.     (* the rest of the history was checked on the Go side only (see the harness) *)
    (* traversal with mutation: each element = what Next returned, then the stores (to existing
       fields) performed before the following Next; the walk ended with nil after the last one *)
 
@@ -51,13 +56,19 @@ Definition nres_is (r : nres) (k : key) (v : value) : bool :=
   match r with NKV k' v' => key_eqb k' k && value_eqb v' v | _ => false end.
 Definition nres_end (r : nres) : bool := match r with NEnd => true | _ => false end.
 
-Fixpoint trav_impl (mai : Z) (t : tbl) (cur : option key) (o : list (key * value * list (key * value)))
+Definition apply_tupd (mai : Z) (t : tbl) (u : tupd) : tbl :=
+  match u with
+  | USet k v => RawSet mai t k v
+  | URemove pos => snd (tableRemove t (Some pos))
+  end.
+
+Fixpoint trav_impl (mai : Z) (t : tbl) (cur : option key) (o : list (key * value * list tupd))
   : bool * tbl :=
   match o with
   | [] => (nres_end (Next mai t cur), t)
   | (k, v, us) :: r =>
     if nres_is (Next mai t cur) k v then
-      trav_impl mai (fold_left (fun t' u => RawSet mai t' (fst u) (snd u)) us t) (Some k) r
+      trav_impl mai (fold_left (apply_tupd mai) us t) (Some k) r
     else (false, t)
   end.
 
@@ -79,11 +90,13 @@ Definition impl_step (mai : Z) (t : tbl) (s : step) : bool * tbl :=
     | Some t' => (negb raised, t')
     end
   | STrav o => trav_impl mai t None o
+  | SStop => (true, t)
   end.
 
 Fixpoint impl_steps (mai : Z) (t : tbl) (ss : list step) : bool :=
   match ss with
   | [] => true
+  | SStop :: _ => true
   | s :: r => let (ok, t') := impl_step mai t s in if ok then impl_steps mai t' r else false
   end.
 
@@ -99,15 +112,26 @@ Fixpoint ipairs_ok (m : smap) (i : Z) (o : list value) : bool :=
 
 (* traversal under updates of existing fields: visited keys distinct, each reported with its
    current value, every key present from the start to the end is visited *)
-Fixpoint trav_spec (m : smap) (o : list (key * value * list (key * value)))
+Definition sapply_tupd (mai : Z) (m : smap) (u : tupd) : smap :=
+  match u with
+  | USet k v => sset m k v
+  | URemove pos => snd (s_remove mai m pos)
+  end.
+Definition tupd_ok (m : smap) (u : tupd) : bool :=
+  match u with
+  | USet k _ => negb (is_nil (sget m k))      (* the harness only touched existing fields *)
+  | URemove _ => true
+  end.
+
+Fixpoint trav_spec (mai : Z) (m : smap) (o : list (key * value * list tupd))
          (seen : list key) (always : list key) : bool :=
   match o with
   | [] => forallb (fun k => memb key_eqb k seen) always
   | (k, v, us) :: r =>
     negb (is_nil v) && value_eqb (sget m k) v && negb (memb key_eqb k seen)
-    && forallb (fun u => negb (is_nil (sget m (fst u)))) us      (* the harness only touched existing fields *)
-    && (let m' := fold_left (fun m' u => sset m' (fst u) (snd u)) us m in
-        trav_spec m' r (k :: seen) (filter (fun k' => negb (is_nil (sget m' k'))) always))
+    && (let m' := fold_left (fun m' u => if tupd_ok m' u then sapply_tupd mai m' u else m') us m in
+        forallb (fun b => b) (snd (fold_left (fun a u => (sapply_tupd mai (fst a) u, tupd_ok (fst a) u :: snd a)) us (m, [])))
+        && trav_spec mai m' r (k :: seen) (filter (fun k' => negb (is_nil (sget m' k'))) always))
   end.
 
 Definition spec_step (mai : Z) (m : smap) (s : step) : bool * smap :=
@@ -124,13 +148,15 @@ Definition spec_step (mai : Z) (m : smap) (s : step) : bool * smap :=
   | SIpairs o => (ipairs_ok m 1 o, m)
   | SGuard _ raised => (raised, m)
   | STrav o =>
-    (trav_spec m o [] (map fst m),
-     fold_left (fun m' e => fold_left (fun m'' u => sset m'' (fst u) (snd u)) (snd e) m') o m)
+    (trav_spec mai m o [] (map fst m),
+     fold_left (fun m' e => fold_left (sapply_tupd mai) (snd e) m') o m)
+  | SStop => (true, m)
   end.
 
 Fixpoint spec_steps (mai : Z) (m : smap) (ss : list step) : bool :=
   match ss with
   | [] => true
+  | SStop :: _ => true
   | s :: r => let (ok, m') := spec_step mai m s in if ok then spec_steps mai m' r else false
   end.
 
